@@ -348,8 +348,10 @@ def single_thread_prefetch(
                 data_queue.put(item)
                 if shutdown:
                     return
-        except Exception:
-            # Save the exception and reraise it in the main thread
+        except BaseException:
+            # Save the exception and reraise it in the main thread.
+            # BaseException: Otherwise an exception that is not derived from
+            # Exception would silently truncate the stream.
             nonlocal exc_info
             # https://stackoverflow.com/a/1854263/5766934
             exc_info = sys.exc_info()
